@@ -1,7 +1,6 @@
 // C14 harness: state ids follow declaration order and dispatch reaches exactly that state, for a machine
 // generated with N states (STATE_LIST = St<0>,...,St<N-1>), with and without a root head.
-// Compile-time part (evaluated by clang while the encoding is regenerated): static_assert(stateId<St<i>>() == i)
-// for every i, head id invalid.  Solver part: symbolic k, k2 < N.
+// stateId<St<i>>() == i for every i and the invalid id of the head are constant expressions, asserted as 1417/1418.  Solver part: symbolic k, k2 < N.
 #define FFSM2_DISABLE_TYPEINDEX
 #include "vrt.h"
 #include <ffsm2/machine.hpp>
@@ -66,18 +65,24 @@ struct Rt : FSM::State {
   void update(FullControl& c) { root_seen |= K_UPDATE; vassert(c.stateId() == ffsm2::INVALID_STATE_ID, 1410); }
   void exit(PlanControl&) { root_seen |= K_EXIT; }
 };
-// compile-time: ids follow declaration order, for every i
-template <int I> struct IdCheck { static_assert(FSM::stateId<St<I>>() == I, "stateId<T>() is the zero-based position of T"); typedef typename IdCheck<I + 1>::done done; };
-template <> struct IdCheck<NSTATES> { typedef int done; };
-typedef IdCheck<0>::done ids_checked;
+// ids follow declaration order, for every i (constant expressions; asserted in the harness so that a wrong id is
+// reported with the other violations instead of stopping the build)
+template <int I> struct IdCheck { static bool ok() { return FSM::stateId<St<I>>() == I && IdCheck<I + 1>::ok(); } };
+template <> struct IdCheck<NSTATES> { static bool ok() { return true; } };
+static bool head_id_ok() {
 #if HEAD
-static_assert(FSM::stateId<Rt>() == ffsm2::INVALID_STATE_ID, "the root head has the invalid id");
+  return FSM::stateId<Rt>() == ffsm2::INVALID_STATE_ID;
+#else
+  return true;
 #endif
+}
 // access<T>() for a run-time index
 template <int I> struct Acc { static const void* of(Inst& m, int k) { return k == I ? static_cast<const void*>(&m.access<St<I>>()) : Acc<I + 1>::of(m, k); } };
 template <> struct Acc<NSTATES> { static const void* of(Inst&, int) { return 0; } };
 
 extern "C" int harness(void) {
+  vassert(IdCheck<0>::ok(), 1417);                              // stateId<T>() is the zero-based position of T
+  vassert(head_id_ok(), 1418);                                  // the root head has the invalid id
   allow_a = 0; seen_a = 0; self_a = 0;
   Inst m;
   vassert(m.activeStateId() == 0, 1400);                        // the first declared state is the initial state
